@@ -59,6 +59,30 @@ fn node_view(server: &Server) -> Vec<(Vec<bool>, Vec<u8>)> {
   v
 }
 
+/// behaviour and key material agree: whatever input the key REFUSES to evaluate (it behaves as
+/// punctured) is not covered by any retained node - otherwise the holder believes the input is
+/// gone while its material (and its exports) still evaluate it
+fn refused_inputs_uncovered(rec: &mut Rec, server: &Server, whose: &str, history: &[u8]) -> bool {
+  use ppoprf::PPRF;
+  let ggm = server.verif_pprf();
+  let view = ggm.verif_retained_nodes();
+  for x in 0..=255u8 {
+    let mut out = [0u8; 32];
+    rec.ev("refusal_vs_material_checks");
+    if ggm.eval(&[x], &mut out).is_err() {
+      if let Some((pre, _)) = view.iter().find(|(pre, _)| pre.len() <= 8 && pre.iter().enumerate().all(|(i, b)| *b == ((x >> i) & 1 == 1))) {
+        rec.violation(
+          &format!("refused-input-still-covered:{}", whose),
+          format!("the key refuses to evaluate input {} (it behaves as punctured) but still retains a node of depth {} on the path to it ({})", x, pre.len(), whose),
+          json!({"input": x, "history": history, "node_depth": pre.len()}),
+        );
+        return false;
+      }
+    }
+  }
+  true
+}
+
 /// invariants on a (prefix, seed) view against the forbidden set
 fn view_ok(rec: &mut Rec, view: &[(Vec<bool>, Vec<u8>)], shadow: &HashMap<(u8, u8), Seed>, p: &[bool; 256], whose: &str, history: &[u8]) -> bool {
   let mut forbidden: HashSet<Seed> = HashSet::new();
@@ -150,6 +174,10 @@ fn server_history(rec: &mut Rec, ctx: &Ctx, idx: u64, rng: &mut ChaCha20Rng) {
   // one re-synced at every position, one lagging (every 3rd position)
   let mut replica_every = Server::new(vec![rng.gen::<u8>()]).ok();
   let mut replica_lagging = Server::new(vec![rng.gen::<u8>()]).ok();
+  // ... and one that is AHEAD of the exporter now and then: it punctures a tag on its own, is
+  // re-synced from the exporter (where that tag is still live) and then catches up on it
+  let mut replica_ahead = Server::new((0..=255u8).collect()).ok();
+  let mut ahead_tag: Option<u8> = None;
   // export at every position of the history (incl. before the first puncture)
   for pos in 0..=steps {
     if pos > 0 {
@@ -271,6 +299,35 @@ fn server_history(rec: &mut Rec, ctx: &Ctx, idx: u64, rng: &mut ChaCha20Rng) {
               json!({"tag": x, "history": hist}),
             );
             return;
+          }
+        }
+      }
+    }
+    if pos % 2 == 0 {
+      if let (Some(r), Ok(st)) = (replica_ahead.as_mut(), bincode::deserialize::<ServerKeyState>(&bytes)) {
+        r.set_private_key(st);
+        rec.ev("replica_ahead_resyncs");
+        // catching up on the tag it had punctured on its own before the re-sync
+        if let Some(z) = ahead_tag.take() {
+          let _ = r.puncture(z);
+          if !refused_inputs_uncovered(rec, r, "replica-ahead:after-catching-up", &hist) {
+            return;
+          }
+          // back in step with the exporter for the checks below
+          if let Ok(st2) = bincode::deserialize::<ServerKeyState>(&bytes) {
+            r.set_private_key(st2);
+          }
+        }
+        if !refused_inputs_uncovered(rec, r, "replica-ahead:after-import", &hist) {
+          return;
+        }
+        // run ahead: a tag the exporter has not punctured yet
+        if let Some(z) = (0..256usize).map(|k| ((k * 37 + pos * 11) % 256) as u8).find(|z| !p[*z as usize]) {
+          if r.puncture(z).is_ok() {
+            ahead_tag = Some(z);
+            if !refused_inputs_uncovered(rec, r, "replica-ahead:after-own-puncture", &hist) {
+              return;
+            }
           }
         }
       }
